@@ -7,12 +7,12 @@ diffs="$@"; [ -z "$diffs" ] && diffs=$(ls /verif/benign/*.diff)
 S=${SHADOW:-/tmp/shadow}
 for d in $diffs; do
   cd $S/verif
-  git -C $S/repo checkout -q -- .
+  git -C $S/repo checkout -q -- .; git -C $S/repo clean -fdq -- truc truc_runtime
   git -C $S/repo apply $d || { echo "$(basename $d): DOES NOT APPLY" >> $out; continue; }
   for p in C01 C02 C03 C04 C05 C06 C07 C08 C09 C10 C11 C12 C13 C14 C15 C16 C17 C18 C19 C20; do
     res=$(./check $p quick 2>&1 | grep -E "^OK|VIOLATION|INCONCLUSIVE|^  \[" | head -2 | tr '\n' ' ' | cut -c1-300)
     echo "$(basename $d .diff) $p :: $res" >> $out
   done
-  git -C $S/repo checkout -q -- .
+  git -C $S/repo checkout -q -- .; git -C $S/repo clean -fdq -- truc truc_runtime
 done
 echo DONE >> $out
